@@ -8,6 +8,7 @@ line per op; same protocol as harness/c16*.cpp.  Imports Model/ and Gen/ only.
 -/
 import SharkVerif.Gen.McTables
 import SharkVerif.Model.McSmo
+import SharkVerif.Model.McSolve
 import SharkVerif.Model.McLinear
 open SharkVerif.Mc SharkVerif.Gen
 
@@ -111,6 +112,14 @@ def mkBox (f : String) (a : List Int) : Option (McBox α) :=
       some (normalize { s with useShrinking := shr != 0 })
   | _ => none
 
+/-- `solveLoop` of Model/McSolve.lean with `normalize` after every pass -/
+def solveLoopN (eps : α) : Nat → SolveSt α → SolveSt α
+  | 0, st => { st with stop := .maxIter }
+  | fuel + 1, st =>
+    let st' := solveBody eps st
+    let st' := { st' with s := normalize st'.s }
+    if st'.stop = .running then solveLoopN eps fuel st' else st'
+
 /-- one op on a problem; `none` = precondition violated / unknown op; second component: extra output -/
 def boxOp (s : McBox α) (op : String) (a : List Int) : Option (McBox α × String) :=
   match op, a with
@@ -140,6 +149,13 @@ def boxOp (s : McBox α) (op : String) (a : List Int) : Option (McBox α × Stri
     some (s.addDeltaLinear (fun i p => Scal.ofIntShift (arr.getD (i * s.P + p) 0) 0), "")
   | "label", [i] => if i.toNat < s.n then some (s, s!"label={s.labels i.toNat} ") else none
   | "select1", [] => let r := s.selectWorkingSet; some (s, s!"i={r.1} j={r.2.1} viol={Scal.render r.2.2} ")
+  | "solve", [num, shift, maxit] =>
+    -- QpSolver<QpMcBoxDecomp>::solve: the model's loop body `solveBody`, iterated as `solveLoop` does, with the
+    -- vectors re-tabulated after every pass (identity on the valid index ranges)
+    let eps : α := Scal.ofIntShift num shift.toNat
+    let r := solveLoopN eps maxit.toNat { s := s, iter := 0, shrinkCounter := 0, stop := .running }
+    let code := match r.stop with | .running => 0 | .accuracy => 1 | .maxIter => 4 | .stuck => 99
+    some (r.s, s!"it={r.iter} stop={code} acc={Scal.render r.accuracy} ")
   | _, _ => none
 end
 
